@@ -910,6 +910,15 @@ func (cr *clRun) addrOf(nodeName string) string {
 
 func (cr *clRun) onFrame(fr *obsFrame) {
 	t := fr.f.Type
+	known := false
+	for _, rn := range cr.c.reps {
+		if rn.name == fr.target {
+			known = true
+		}
+	}
+	if !known {
+		return // a data connection of another volume (the clone's controller reading its own replica)
+	}
 	if fr.toServer {
 		if t == tRead || t == tWrite || t == tSync || t == tUnmap {
 			o := cr.curOp
